@@ -1438,3 +1438,106 @@ def rule_index_below_count(ctx):
                 ctx.violated("IDXCOUNT", key, f.where(line), "`%s > %s` lets %s == count through, and `%s` then indexes the table: the slot behind the last element is read and dereferenced" % (v, cnt[:30], v, v))
     ctx.floor("IDXCOUNT", 2, n, "(index guards against an NC_array count)")
     return n
+
+
+class _NetCount(PathAnalysis):
+    """user = net change applied to the counted field along the path (None = not touched)"""
+
+    def __init__(self, prog, field):
+        super().__init__(prog)
+        self.field = field
+        self.exits = []
+
+    def init_user(self, func):
+        return None
+
+    def on_stmt(self, func, bid, idx, stmt, env, user):
+        for n in walk(stmt["e"]):
+            d = 0
+            # once the routine has started to act (any call but error reporting) a later failure is not a refusal any more
+            if n[0] == "call" and isinstance(user, int) and user != 0 and n[1] not in ("HEpush", "HEreport", "HEclear"):
+                return "set"
+            if n[0] == "incdec" and mem_field(n[3]) == self.field:
+                d = 1 if n[1] == "++" else -1
+            elif n[0] == "asg" and mem_field(n[2]) == self.field:
+                if n[1] == "+=" and is_int(n[3]):
+                    d = int_val(n[3])
+                elif n[1] == "-=" and is_int(n[3]):
+                    d = -int_val(n[3])
+                else:
+                    return "set"
+            if d and user != "set":
+                user = (user or 0) + d
+        return user
+
+    def on_exit(self, func, bid, retval, env, user):
+        self.exits.append((classify_ret(retval, self.fails), user))
+
+
+def rule_refused_close_restores_count(ctx):
+    """RESTORE (C13): Hclose takes its reference off the file record first (`--refcount`) and only then finds out whether the
+    close can go ahead: with access elements still attached it refuses.  A refusal leaves the record as it found it - every
+    failing exit that was reached after the count went down has put it back - because `refcount == 0` is what makes every
+    other call reject the (still registered) file id: the file would be unusable and could not even be closed again.
+    (Failures after the tear-down has begun - a call other than error reporting was made with the count down - are not
+    refusals and are not examined.)"""
+    prog = ctx.prog
+    n = 0
+    for f in prog.lib_funcs():
+        if not f.rel.endswith("hdf/src/hfile.c"):
+            continue
+        touches = any((x[0] == "incdec" and x[1] == "--" and mem_field(x[3]) == ("filerec_t", "refcount")) for _b, _i, _s, x in f.nodes(True))
+        if not touches:
+            continue
+        n += 1
+        key = "RESTORE:%s" % f.name
+        a = _NetCount(prog, ("filerec_t", "refcount"))
+        a.fails = fail_values(f, prog)
+        a.run(f)
+        bad = [u for cls, u in a.exits if cls == "fail" and isinstance(u, int) and u < 0]
+        if bad:
+            ctx.violated("RESTORE", key, f.where(), "a failing exit is reached with file_rec->refcount %d lower than on entry: the refused call has consumed the caller's reference, and the file id that is still registered is rejected by every later call" % -bad[0])
+        else:
+            ctx.holds("RESTORE", key, f.where(), "every failing exit leaves file_rec->refcount as it was on entry (%d exit(s) examined)" % len(a.exits), nontrivial=True)
+    ctx.floor("RESTORE", 1, n, "(routines that take a reference off the file record)")
+    return n
+
+
+def rule_slot_id_consumed(ctx):
+    """SLOTID (C13): the start-access routine of a special element (`special_func->stread` / `->stwrite`) registers a fresh
+    access id for the access record it is given and returns it.  The caller either hands that id on (Hstartaccess returns
+    it) or, when it re-targets a record that already *has* an id (Hnextread), removes it again - it is never just compared
+    with FAIL and dropped: a second id on the same record stays valid after the first is ended, points at a recycled record
+    and then answers for another object."""
+    prog = ctx.prog
+    n = 0
+    for f in prog.lib_funcs():
+        sites = []
+        for _b, _i, s, x in f.nodes(True):
+            if x[0] == "asg" and x[1] == "=" and kind(strip(x[2])) == "var":
+                r = strip(x[3])
+                if kind(r) == "call" and r[1] is None:
+                    ce = strip(r[2])
+                    while kind(ce) in ("deref",):
+                        ce = strip(ce[1])
+                    mf = mem_field(ce)
+                    if mf and mf[0] == "funclist_t" and mf[1] in ("stread", "stwrite"):
+                        sites.append((strip(x[2])[1], s.get("l", f.line), mf[1], id(x)))
+        for v, line, slot, xid in sites:
+            n += 1
+            key = "SLOTID:%s:%s@%s" % (f.name, v, slot)
+            used = False
+            for _b, _i, s, x in f.nodes(True):
+                if x[0] == "call":
+                    if any(kind(strip(a)) == "var" and strip(a)[1] == v for a in x[3]):
+                        used = True
+                elif x[0] == "ret" and x[1] is not None and any(y[0] == "var" and y[1] == v for y in walk(x[1], True)):
+                    used = True
+                elif x[0] == "asg" and id(x) != xid and any(y[0] == "var" and y[1] == v for y in walk(x[3], True)) and not (kind(strip(x[3])) == "call" and strip(x[3])[1] is None):
+                    used = True       # copied on (ret_value = aid)
+            if used:
+                ctx.holds("SLOTID", key, f.where(line), "the id returned by %s is handed on or removed" % slot, nontrivial=True)
+            else:
+                ctx.violated("SLOTID", key, f.where(line), "the id returned by %s is only compared and then dropped: it stays registered for this access record next to the record's real id" % slot)
+    ctx.floor("SLOTID", 2, n, "(ids returned by a special element's start-access slot)")
+    return n
